@@ -109,6 +109,41 @@ func (c *C01Case) Run() string {
 			}
 		}
 	}
+	// far misses: components whose low 32 (or 31, 16, 8) bits look in range, and the extremes of int
+	nFar := 0
+	for ax := 0; ax < rank; ax++ {
+		for _, base := range []int{0, c.Shape[ax] - 1} {
+			for _, h := range []int{1 << 32, -(1 << 32), 1 << 31, -(1 << 31), 1 << 33, 3 << 32, -(3 << 32), 1 << 16, 1 << 8, 1 << 62, -(1 << 62), int(^uint(0) >> 1), -int(^uint(0)>>1) - 1} {
+				for i := range coord {
+					coord[i] = 0
+					if i != ax && c.Shape[i] > 1 && (h>>8)&1 == 0 {
+						coord[i] = c.Shape[i] - 1
+					}
+				}
+				coord[ax] = base + h
+				if coord[ax] >= 0 && coord[ax] < c.Shape[ax] {
+					continue // wrapped back into range (int overflow of base+h)
+				}
+				nFar++
+				if msg := c.mustReject(b, coord); msg != "" {
+					return "far miss: " + msg
+				}
+			}
+		}
+	}
+	// two far components that cancel in a flat offset computed from the shape
+	if rank >= 2 && c.Shape[rank-1] >= 1 {
+		for i := range coord {
+			coord[i] = 0
+		}
+		coord[rank-2] = 1 << 32
+		coord[rank-1] = -(c.Shape[rank-1] << 32)
+		nFar++
+		if msg := c.mustReject(b, coord); msg != "" {
+			return "far miss (cancelling pair): " + msg
+		}
+	}
+	rec.ClassN("coords_far_miss", nFar)
 	// wrong arity
 	if rank > 0 {
 		if msg := c.mustReject(b, make([]int, rank-1)); msg != "" {
@@ -191,7 +226,7 @@ func genC01Shape(t *rapid.T) []int {
 }
 
 func TestC01(t *testing.T) {
-	for _, d := range allDTs {
+	for _, d := range append(append([]DT{}, allDTs...), extDTs...) {
 		for _, lk := range c01Layouts {
 			d, lk := d, lk
 			cell(t, "C01", "C01.addr", d.Name+"/"+lk, nCases(3, 40), func(rt *rapid.T) Case {
